@@ -25,6 +25,13 @@ fn check_text(mv: Move, want: &[u8; 12], n: usize) {
     let txt = unsafe { core::str::from_utf8_unchecked(&o.b[..o.n]) };
     assert!(Move::from_str(txt) == Ok(mv));
 }
+/// Display gives exactly `want[..n]` (formatting direction only)
+fn check_fmt(mv: Move, want: &[u8; 12], n: usize) {
+    let mut o = Buf12 { b: [0; 12], n: 0 };
+    assert!(write!(o, "{}", mv).is_ok());
+    assert!(o.n == n);
+    let mut i = 0; while i < 12 { if i < n { assert!(o.b[i] == want[i]); } i += 1; }
+}
 harness! {
     #[kani::unwind(14)]
     fn c09_text_castling() {
@@ -35,6 +42,18 @@ harness! {
         if side == CastlingSide::Queen { w[3] = b'-'; w[4] = b'O'; n = 5; }
         put_check(&mut w, &mut n, check);
         check_text(Move { data: Data::Castling(side), check }, &w, n);
+    }
+}
+harness! {
+    #[kani::unwind(14)]
+    fn c09_fmt_castling() {
+        let side = if vk::any_bool() { CastlingSide::King } else { CastlingSide::Queen };
+        let check = any_check();
+        let mut w = [0u8; 12]; let mut n;
+        w[0] = b'O'; w[1] = b'-'; w[2] = b'O'; n = 3;
+        if side == CastlingSide::Queen { w[3] = b'-'; w[4] = b'O'; n = 5; }
+        put_check(&mut w, &mut n, check);
+        check_fmt(Move { data: Data::Castling(side), check }, &w, n);
     }
 }
 harness! {
@@ -50,6 +69,17 @@ harness! {
 }
 harness! {
     #[kani::unwind(14)]
+    fn c09_fmt_pawn_move() {
+        let dst = ab::coord(ab::any_sq()); let promote = any_promote(); let check = any_check();
+        let mut w = [0u8; 12]; let mut n = 0;
+        put_sq(&mut w, &mut n, dst);
+        if let Some(p) = promote { w[n] = b'='; w[n + 1] = promo_letter(p); n += 2; }
+        put_check(&mut w, &mut n, check);
+        check_fmt(Move { data: Data::PawnMove { dst, promote }, check }, &w, n);
+    }
+}
+harness! {
+    #[kani::unwind(14)]
     fn c09_text_pawn_capture() {
         let dst = ab::coord(ab::any_sq()); let promote = any_promote(); let check = any_check();
         let f = File::from_index((vk::any_u8() % 8) as usize);
@@ -59,6 +89,19 @@ harness! {
         if let Some(p) = promote { w[n] = b'='; w[n + 1] = promo_letter(p); n += 2; }
         put_check(&mut w, &mut n, check);
         check_text(Move { data: Data::PawnCapture { src: f, dst, promote }, check }, &w, n);
+    }
+}
+harness! {
+    #[kani::unwind(14)]
+    fn c09_fmt_pawn_capture() {
+        let dst = ab::coord(ab::any_sq()); let promote = any_promote(); let check = any_check();
+        let f = File::from_index((vk::any_u8() % 8) as usize);
+        let mut w = [0u8; 12]; let mut n;
+        w[0] = b'a' + f.index() as u8; w[1] = b'x'; n = 2;
+        put_sq(&mut w, &mut n, dst);
+        if let Some(p) = promote { w[n] = b'='; w[n + 1] = promo_letter(p); n += 2; }
+        put_check(&mut w, &mut n, check);
+        check_fmt(Move { data: Data::PawnCapture { src: f, dst, promote }, check }, &w, n);
     }
 }
 harness! {
@@ -79,6 +122,27 @@ harness! {
         put_sq(&mut w, &mut n, dst);
         put_check(&mut w, &mut n, check);
         check_text(Move { data: Data::Simple { piece, file, rank, is_capture, dst }, check }, &w, n);
+        cover!(n == 8);
+    }
+}
+harness! {
+    #[kani::unwind(14)]
+    fn c09_fmt_piece_move() {
+        let dst = ab::coord(ab::any_sq()); let check = any_check();
+        let pc = 1 + vk::any_u8() % 5;
+        let fx = vk::any_u8() % 9; let rx = vk::any_u8() % 9;
+        let file = if fx == 8 { None } else { Some(File::from_index(fx as usize)) };
+        let rank = if rx == 8 { None } else { Some(Rank::from_index(rx as usize)) };
+        let is_capture = vk::any_bool();
+        let piece = Piece::from_index(pc as usize);
+        let mut w = [0u8; 12]; let mut n;
+        w[0] = match piece { Piece::King => b'K', Piece::Knight => b'N', Piece::Bishop => b'B', Piece::Rook => b'R', _ => b'Q' }; n = 1;
+        if let Some(f) = file { w[n] = b'a' + f.index() as u8; n += 1; }
+        if let Some(r) = rank { w[n] = b'8' - r.index() as u8; n += 1; }
+        if is_capture { w[n] = b'x'; n += 1; }
+        put_sq(&mut w, &mut n, dst);
+        put_check(&mut w, &mut n, check);
+        check_fmt(Move { data: Data::Simple { piece, file, rank, is_capture, dst }, check }, &w, n);
         cover!(n == 8);
     }
 }
